@@ -134,3 +134,20 @@ func init() {
 		return m.F.Eq(m.floatBits(x), m.bv(64, 0x7ff0000000000002))
 	}
 }
+
+func init() {
+	// textual renderings of times are only logged in the code analysed: opaque strings (may be moved, not inspected)
+	opq := func(m *Machine, _ *frame, _ token.Pos, _ *ssa.Function, a []Value) Value {
+		return Str{S: "<time>", Opq: true}
+	}
+	intrinsics["(time.Time).String"] = opq
+	intrinsics["(time.Time).Format"] = opq
+	intrinsics["(time.Time).GoString"] = opq
+	intrinsics["(time.Duration).String"] = func(m *Machine, _ *frame, _ token.Pos, fn *ssa.Function, a []Value) Value {
+		if t, ok := a[0].(*sym.Term); ok && t.IsConst() {
+			return nil // not reached: handled below
+		}
+		return Str{S: "<duration>", Opq: true}
+	}
+	delete(intrinsics, "(time.Duration).String")
+}
